@@ -232,6 +232,10 @@ def snapshot(root, content=True, dmap=False, include_root=True):
         for n in names:
             r = os.path.join(rel, n) if rel else n
             p = os.path.join(root, r)
+            if len(p) > 3800:
+                # a runaway tree (paths near PATH_MAX): recorded as such, not descended into
+                out[u(r)] = {"k": "too-deep", "size": 0, "mode": 0, "uid": 0, "gid": 0, "mtime_ns": 0, "ino": 0, "nlink": 0, "rdev": [0, 0], "xattrs": {}}
+                continue
             rec = record(p, content, dmap)
             out[u(r)] = rec
             if rec["k"] == "d":
